@@ -254,9 +254,14 @@ def run_case(case):
         if abs(float(s['max_drawdown']) - o['maxdd']) > 1e-9:
             raise Violation('max drawdown %r, maximum of the drawdown series is %r' % (float(s['max_drawdown']), o['maxdd']))
         lo, hi = o['dur']
+        near_tie = False
         if not lo <= s['max_drawdown_duration'] <= hi:
-            raise Violation('max drawdown duration %r, longest under-water run is %s' % (
-                s['max_drawdown_duration'], lo if lo == hi else (lo, hi)))
+            # (the library accumulates the curve as exp(cumsum(log(1 + r))): its noise grows with the length, and a point
+            # within that noise of the running maximum may or may not count as under water)
+            if not _near_peak_revisit(o, n):
+                raise Violation('max drawdown duration %r, longest under-water run is %s' % (
+                    s['max_drawdown_duration'], lo if lo == hi else (lo, hi)))
+            near_tie = True
         # aggregates
         rs = pd.Series(o['r'], index=idx)
         for per in ('weekly', 'monthly', 'yearly'):
@@ -443,7 +448,7 @@ def run_case(case):
         if lo == hi and s3['max_drawdown_duration'] != s['max_drawdown_duration']:
             # scaling by a non-power of two can create or destroy float ties with a previous peak
             ties3 = not (o['dur'][0] <= s3['max_drawdown_duration'] <= o['dur'][1])
-            if ties3 and not _near_peak_revisit(o):
+            if ties3 and not _near_peak_revisit(o, n):
                 raise Violation('max drawdown duration changes from %r to %r when equity is multiplied by %r' % (
                     s['max_drawdown_duration'], s3['max_drawdown_duration'], c))
     finally:
@@ -456,6 +461,8 @@ def run_case(case):
         cls.append('first_point_is_peak')
     if lo != hi:
         cls.append('duration_tie_ambiguous')
+    if near_tie:
+        cls.append('duration_within_float_noise_of_a_tie')
     if months >= 12:
         cls.append('spans_year')
     if any(d.isocalendar()[1] == 53 for d in idx):
@@ -465,11 +472,13 @@ def run_case(case):
     return Result(cls, nontrivial=under and months >= 2 and not mono_up)
 
 
-def _near_peak_revisit(o):
-    """True when some point comes within 1e-12 (relative) of the running maximum without being it."""
+def _near_peak_revisit(o, n=0):
+    """True when some point comes within float noise (1e-12 relative, or 16 n ulp for long curves) of the running
+    maximum without being it."""
+    tol = max(1e-12, 16 * n * 2.3e-16)
     m = None
     for c in o['cum']:
-        if m is not None and c != m and abs(c - m) <= 1e-12 * m:
+        if m is not None and c != m and abs(c - m) <= tol * m:
             return True
         m = c if m is None or c > m else m
     return False
